@@ -8,7 +8,7 @@ Nd(p, ps) == [proc |-> p, ps |-> ps, flow |-> FALSE, quoted |-> FALSE, alias |->
 Sw(el, vals, mode, bc, expr) ==
     [proc |-> el, ps |-> <<>>, flow |-> FALSE, quoted |-> FALSE, alias |-> 0, pempty |-> 0,
      sweep |-> [on |-> TRUE, vname |-> "t", vals |-> vals, ints |-> FALSE, ctx2 |-> FALSE, vorder |-> FALSE, mode |-> mode, bc |-> bc, expr |-> expr, coll |-> "FloatDataCollection", el |-> el, rng |-> NoRng]]
-Rng(lo, hi, n, endp, log) == [on |-> TRUE, lo |-> lo, hi |-> hi, steps |-> n, endp |-> endp, log |-> log, expl |-> FALSE]
+Rng(lo, hi, n, endp, log) == [on |-> TRUE, lo |-> lo, hi |-> hi, steps |-> n, endp |-> endp, log |-> log, expl |-> FALSE, intsp |-> FALSE]
 Seed1 == << Nd("FloatValueDataSource", <<E("value", 1)>>),
             Nd("FloatMultiplyOperation", <<E("factor", 3)>>),
             Nd("VNestedOperation", <<E("gain", 2), EN("opts", <<S("alpha", 1), S("beta", 2)>>)>>) >>
